@@ -151,6 +151,18 @@ fn check_state(root: &str, tag: &str, base: usize, path: &[Op], page: u64, divse
 	if run_path(&m, &dir, path).is_err() {
 		return out;
 	}
+	// a third account holding an output: a restore then has to re-create two unknown account paths at once
+	{
+		let w = World::open(&dir);
+		let a = w.w("A");
+		if a.create_account("acct2").is_ok() {
+			a.set_account("acct2").unwrap();
+			w.mine("A").unwrap();
+			a.set_account("default").unwrap();
+			a.refresh().ok();
+		}
+		w.close();
+	}
 	let snap = Snapshot::capture(&dir);
 	let desc = |extra: Value| json!({"base": base, "path": path, "page": page, "case": extra});
 	// ---- restore from seed, every start height
@@ -212,6 +224,20 @@ fn check_state(root: &str, tag: &str, base: usize, path: &[Op], page: u64, divse
 					format!("scan from height {} produced an Unspent record {} (value {}) that is not one of the seed's outputs in the UTXO set", start, o.key_id.to_bip_32_string(), o.value),
 					desc(json!({"restore_from": start})),
 				));
+			}
+		}
+		// every account path that holds a restored output is reachable through an account label
+		{
+			let paths: Vec<Identifier> = r.with(|b| b.acct_path_iter().map(|m| m.path).collect());
+			for o in recs.iter() {
+				if !paths.contains(&o.root_key_id) {
+					out.problems.push((
+						"restore/account-not-reachable".into(),
+						format!("restored output {} belongs to account path {} but no account label maps to that path (labels map to {:?})", o.key_id.to_bip_32_string(), o.root_key_id.to_bip_32_string(), paths.iter().map(|p| p.to_bip_32_string()).collect::<Vec<_>>()),
+						desc(json!({"restore_from": start})),
+					));
+					break;
+				}
 			}
 		}
 		if start <= 1 {
